@@ -6,6 +6,7 @@ import (
 	"fmt"
 	"sort"
 	"strings"
+	"sync"
 
 	"github.com/nspcc-dev/neo-go/pkg/core/dao"
 	"github.com/nspcc-dev/neo-go/pkg/core/interop"
@@ -33,6 +34,9 @@ import (
 // What is reported as refuting the property is decided at the end of the run
 // (see verdicts): effects that were rolled back or belong to an execution that
 // faulted changed nothing and are only counted.
+
+// sysNames maps interop ids to names, filled from the interop table of the chain.
+var sysNames sync.Map
 
 type ctxInfo struct {
 	Hash  util.Uint160
@@ -195,8 +199,11 @@ func (m *monitor) hook(scriptHash util.Uint160, offset int, op opcode.Opcode) {
 	m.prev = ctxInfo{Hash: scriptHash, Flags: ctx.GetCallFlags(), Op: op, Off: offset, Depth: len(ic.VM.Istack())}
 	if op == opcode.SYSCALL {
 		if prog := ctx.Program(); offset+5 <= len(prog) {
-			if n, err := interopnames.FromID(binary.LittleEndian.Uint32(prog[offset+1:])); err == nil {
+			id := binary.LittleEndian.Uint32(prog[offset+1:])
+			if n, err := interopnames.FromID(id); err == nil {
 				m.prev.Sys = n
+			} else if n, ok := sysNames.Load(id); ok { // names missing from interopnames' own list
+				m.prev.Sys = n.(string)
 			}
 		}
 	}
